@@ -293,6 +293,7 @@ type InstanceResult struct {
 	SolverTime  time.Duration
 	Steps       int
 	Asserts     int
+	MapChecks   [2]int
 	Wall        time.Duration
 	stopped     bool
 }
@@ -373,6 +374,8 @@ func (env *Env) exploreAll(insts []*InstanceResult, hs map[string]*Harness, jobs
 				res.Branches += pr.branches
 				res.Steps += pr.steps
 				res.Asserts += pr.asserts
+				res.MapChecks[0] += pr.mapChecks[0]
+				res.MapChecks[1] += pr.mapChecks[1]
 				for f, n := range pr.funcs {
 					res.Funcs[f] += n
 				}
@@ -423,6 +426,7 @@ type pathResult struct {
 	branches  int
 	steps     int
 	asserts   int
+	mapChecks [2]int // map accesses checked for ordering, of these across goroutines (race.go)
 	funcs     map[string]int
 	reached   map[string]bool
 	abort     *pathAbort
@@ -451,6 +455,9 @@ func (env *Env) runPath(h *Harness, shape int, prefix []int, s *Solver) (pr path
 		pr.branches = e.branches
 		pr.steps = in.steps
 		pr.asserts = in.nAsserts
+		if in.hb != nil {
+			pr.mapChecks = [2]int{in.hb.checks, in.hb.cross}
+		}
 		pr.reached = in.reached
 		pr.funcs = map[string]int{}
 		for f, n := range in.funcs {
